@@ -1065,7 +1065,16 @@ class Walker:
             return ("const", e.value)
         if isinstance(e, ast.Name):
             if e.id in env:
-                return env[e.id]
+                v = env[e.id]
+                # a value merged from an earlier `if c:` read again under the same test is that branch's value
+                while v[0] == "sel" and self.guards:
+                    if (v[1], True) in self.guards:
+                        v = v[2]
+                    elif (v[1], False) in self.guards:
+                        v = v[3]
+                    else:
+                        break
+                return v
             imps = self.module_imports()
             if e.id in imps:
                 return ("mod", imps[e.id])
